@@ -149,6 +149,8 @@ def gen_cases(ctx):
         yield {"type": "threads", "threads": 8, "adds": 1500, "seed": int(rng.integers(0, 2**31))}
     yield H.zipf_case(rng, ctx)
     yield H.huge_list_case(rng)
+    yield {"type": "hugekeys", "width": 2, "depth": 2, "max_key_len": 16, "lengths": [65535, 65536, 65541, 196609, 65552], "seed": int(rng.integers(0, 2**31))}
+    yield {"type": "hugekeys", "width": 40000, "depth": 2, "max_key_len": 5, "lengths": [300, 70000], "seed": int(rng.integers(0, 2**31))}
     # scripted: an all-NUL key holding 97% of the stream (a packed integer 0) must be reported first
     yield {"type": "history", "cfg": {"kind": "hh", "width": 2, "depth": 2, "max_key_len": 4}, "n": 1,
            "events": [[0, ["add", "00000000", 97]], [0, ["add", "61", 2]], [0, ["add", "", 1]]]}
@@ -208,7 +210,48 @@ def run_threads(case, ctx, mon):
     mon.nontrivial(True)
 
 
+def run_hugekeys(case, ctx, mon):
+    """A majority key of 64 KiB and more (its identity is its first max_key_len bytes), delivered through add, update(list),
+    update(tuple), update(dict) and update(generator) among a few short keys; also shapes with more than 65536 counters."""
+    import numpy as np
+
+    rng = np.random.default_rng(case["seed"])
+    L = case["max_key_len"]
+    for n_bytes in case["lengths"]:
+        cfg = {"kind": "hh", "width": case["width"], "depth": case["depth"], "max_key_len": L}
+        hh = state.make(cfg)
+        big = rng.bytes(n_bytes)
+        ident = big[:L]
+        others = [rng.bytes(int(rng.integers(1, 9))) for _ in range(5)]
+        f = 0
+        n_total = 0
+        forms = [lambda ks: hh.update(list(ks)), lambda ks: hh.update(tuple(ks)), lambda ks: hh.update(k for k in ks),
+                 lambda ks: hh.update({k: ks.count(k) for k in ks}), lambda ks: [hh.add(k) for k in ks]]
+        for r in range(25):
+            batch = [big] * 4 + [others[int(rng.integers(0, 5))]]
+            rng.shuffle(batch)
+            mon.api(forms[r % len(forms)], batch)
+            f += 4
+            n_total += 5
+        bound = 2 * f - n_total
+        got = int(hh[ident])
+        det = dict(key_length=n_bytes, cfg=cfg, f=f, N=n_total)
+        mon.check(bound <= got <= f, "hh[key]>=max_r(2f-W_r)", got=got, bound=bound, **det)
+        mon.check(int(hh[big]) == got, "hh[long key]==hh[its first max_key_len bytes]", got=int(hh[big]), want=got, **det)
+        res = mon.api(hh.query, 3, bound)
+        mon.check(any(bytes(k) == ident for k, _c in res), "query(inf,t)-contains-dominating-key", answer=H.hh_pairs(res)[:4], **det)
+        added = {ident} | {o[:L] for o in others}
+        for k, c in res:
+            mon.check(bytes(k) in added, "query-pair:key-was-added", key=hx(bytes(k))[:40], count=int(c), **det)
+        mon.check(int(hh.n_added()) == n_total, "n_added==stream-length", got=int(hh.n_added()), **det)
+        mon.count("huge_key_streams")
+        mon.seen("huge_key_length", n_bytes)
+    mon.nontrivial(True)
+
+
 def run_case(case, ctx, mon):
+    if case["type"] == "hugekeys":
+        return run_hugekeys(case, ctx, mon)
     if case["type"] == "threads":
         return run_threads(case, ctx, mon)
     if case["type"] == "zipf":
@@ -237,4 +280,5 @@ def floors(mon, ctx):
     mon.floor("keys with positive bound checked", mon.counters["keys_with_positive_bound"], 30)
     mon.floor("majority keys checked", mon.counters["majority_keys_checked"], 5)
     mon.floor("exhaustive multisets", mon.counters["exhaustive_multisets"], 3)
+    mon.floor("majority keys of 64 KiB and more", len([x for x in mon.classes["huge_key_length"] if x >= 65536]), 4)
     mon.floor("threshold kinds", len(mon.classes["threshold_kinds"]), 4)
